@@ -1,7 +1,7 @@
 (* Properties_C09.v — the theorems that decide property C09 on the model, each stated in full and closed by
    `exact <lemma>`; the lemmas live in the Proofs_*.v files.  Nothing else belongs in this file. *)
 From Coq Require Import Sorting.Sorted.
-From Theo Require Import Base Regex Tokens Errors MacroExtract Grammar LR Gen_MacroGrammar Gen_Consts MacroApply SpecLex SpecMacro MacroStatements Proofs_Macro ApplyCompleteStatements CompileStatements ApplyStatements Proofs_ApplyComplete.
+From Theo Require Import Base Regex Tokens Errors MacroExtract Grammar LR Gen_MacroGrammar Gen_Consts MacroApply SpecLex SpecMacro MacroStatements Proofs_Macro ApplyCompleteStatements CompileStatements ApplyStatements Proofs_ApplyComplete SugarStatements Lexer Scan Gen_Lexer LocErrStatements Proofs_Sugar.
 Local Open Scope Z_scope.
 
 
@@ -112,3 +112,21 @@ Theorem C09_complete_needs_no_unknown :
   ~ C09_detect_complete_unguarded_stmt /\ ~ C09_best_unguarded_stmt /\ ~ C09_none_complete_unguarded_stmt.
 Proof. exact C09_complete_needs_no_unknown_proof. Qed.
 Print Assumptions C09_complete_needs_no_unknown.
+
+Theorem C14_no_unknown_scan :
+  forall files main toks errs, scan Gen_Lexer.rules files main = Ok (toks, errs) -> no_unknown toks.
+Proof. exact C14_no_unknown_scan_proof. Qed.
+Print Assumptions C14_no_unknown_scan.
+
+Theorem C09_no_unknown_extract :
+  forall toks errs out macros, no_unknown toks -> extract_macros toks = Ok (errs, out, macros) ->
+    no_unknown out /\ Forall (fun m => no_unknown (m_rule m) /\ no_unknown (m_repl m)) macros.
+Proof. exact C09_no_unknown_extract_proof. Qed.
+Print Assumptions C09_no_unknown_extract.
+
+Theorem C09_no_unknown_apply :
+  forall input defs passes errs out,
+    no_unknown input -> Forall (fun m => no_unknown (m_repl m)) defs ->
+    apply_macros input defs passes = Ok (errs, out) -> no_unknown out.
+Proof. exact C09_no_unknown_apply_proof. Qed.
+Print Assumptions C09_no_unknown_apply.
